@@ -160,6 +160,14 @@ func (r *renderer) expr(ts []etok) string {
 	return sb.String()
 }
 
+// colon: a label may be followed by a colon wherever it stands (instruction, EQU, FOR, END line)
+func (r *renderer) colon() string {
+	if !r.plain && r.rng.Intn(4) == 0 {
+		return ":"
+	}
+	return ""
+}
+
 func (r *renderer) operand(o operand) string {
 	return o.mode + r.sp(0) + r.expr(o.expr)
 }
@@ -225,13 +233,13 @@ func (r *renderer) items(items []item, lines *[]string) {
 			}
 			*lines = append(*lines, l+r.trailing())
 		case 'Q':
-			*lines = append(*lines, r.sp(0)+it.name+r.sp(1)+r.cs("equ")+r.sp(1)+r.expr(it.expr)+r.trailing())
+			*lines = append(*lines, r.sp(0)+it.name+r.colon()+r.sp(1)+r.cs("equ")+r.sp(1)+r.expr(it.expr)+r.trailing())
 		case 'O':
 			*lines = append(*lines, r.sp(0)+r.cs("org")+r.sp(1)+r.expr(it.expr)+r.trailing())
 		case 'E':
 			pre := r.sp(0)
 			for _, l := range it.labels {
-				pre += l + r.sp(1)
+				pre += l + r.colon() + r.sp(1)
 			}
 			if it.noExpr {
 				*lines = append(*lines, pre+r.cs("end")+r.sp(0))
@@ -260,7 +268,7 @@ func (r *renderer) items(items []item, lines *[]string) {
 		case 'F':
 			pre := r.sp(0)
 			for _, l := range it.labels {
-				pre += l + r.sp(1)
+				pre += l + r.colon() + r.sp(1)
 			}
 			*lines = append(*lines, pre+it.name+r.sp(1)+r.cs("for")+r.sp(1)+r.expr(it.expr)+r.trailing())
 			r.items(it.body, lines)
@@ -354,20 +362,30 @@ func (e *exprEnv) prim(d int) []etok {
 }
 
 func (e *exprEnv) expr(d int) []etok {
+	if e.cmpOps {
+		// an assert condition: arithmetic sides, comparisons only at the top level (nested
+		// comparisons under signs or other comparisons are outside every property's quantifier:
+		// Go types them as booleans, the reference as 0/1)
+		ar := *e
+		ar.cmpOps = false
+		out := ar.expr(d)
+		if e.rng.Intn(3) != 0 {
+			op := []string{"==", "<", ">", "<=", ">=", "!="}[e.rng.Intn(6)]
+			rhs := ar.expr(d)
+			if (op == "<" || op == ">") && rhs[0].k == 'o' {
+				// `<-` and `>=`-like fusions in the Go evaluator: parenthesise a signed operand
+				rhs = append(append([]etok{{'L', "("}}, rhs...), etok{'R', ")"})
+			}
+			out = append(append(out, etok{'o', op}), rhs...)
+		}
+		return out
+	}
 	out := e.prim(d)
 	for e.rng.Intn(5) < 2 {
 		ops := []string{"+", "-", "*", "/", "%", "+", "-"}
-		if e.cmpOps && e.rng.Intn(4) == 0 {
-			ops = []string{"==", "<", ">", "<=", ">=", "&&", "||"}
-		}
 		op := ops[e.rng.Intn(len(ops))]
 		out = append(out, etok{'o', op})
-		nx := e.prim(d)
-		if (op == "<" || op == ">") && nx[0].k == 'o' {
-			// `<-` and `>=`-like fusions in the Go evaluator: parenthesise a signed operand
-			nx = append(append([]etok{{'L', "("}}, nx...), etok{'R', ")"})
-		}
-		out = append(out, nx...)
+		out = append(out, e.prim(d)...)
 	}
 	return out
 }
